@@ -113,7 +113,8 @@ func (e *env) canon(n ast.Node, sub string) string {
 	for len(toks) > 0 && toks[len(toks)-1] == ";" {
 		toks = toks[:len(toks)-1]
 	}
-	return strings.Join(toks, " ")
+	// selector dots are glued ("r.Addr"): a ". " inside a Coq string literal confuses coqdep's sentence lexer
+	return strings.ReplaceAll(strings.Join(toks, " "), " . ", ".")
 }
 
 // --------------------------------------------------------------------------------- small matchers
@@ -948,8 +949,8 @@ func kvEach(fset *token.FileSet, fd *ast.FuncDecl) (row string, ok bool) {
 		return "", false
 	}
 	body := fd.Body.List
-	if len(body) != 4 || e.canon(body[0], "") != "var val int" || e.canon(body[1], "") != "var be errorx . BatchError" ||
-		e.canon(body[3], "") != "return val , be . Err ( )" {
+	if len(body) != 4 || e.canon(body[0], "") != "var val int" || e.canon(body[1], "") != "var be errorx.BatchError" ||
+		e.canon(body[3], "") != "return val , be.Err ( )" {
 		return "", false
 	}
 	f, isRange := body[2].(*ast.RangeStmt)
@@ -975,7 +976,7 @@ func kvEach(fset *token.FileSet, fd *ast.FuncDecl) (row string, ok bool) {
 		return "", false
 	}
 	b, isIf := ifErrNotNil(lb[1], "e")
-	if !isIf || len(b) != 2 || e.canon(b[0], "") != "be . Add ( e )" || e.canon(b[1], "") != "continue" {
+	if !isIf || len(b) != 2 || e.canon(b[0], "") != "be.Add ( e )" || e.canon(b[1], "") != "continue" {
 		return "", false
 	}
 	ifs, isIf2 := lb[2].(*ast.IfStmt)
@@ -992,7 +993,7 @@ func kvEach(fset *token.FileSet, fd *ast.FuncDecl) (row string, ok bool) {
 	}
 	x, y, ne := binop(ifs.Cond, token.NEQ)
 	eb, isBlock := ifs.Else.(*ast.BlockStmt)
-	if !ne || ident(x) != "e" || ident(y) != "nil" || len(ifs.Body.List) != 1 || e.canon(ifs.Body.List[0], "") != "be . Add ( e )" ||
+	if !ne || ident(x) != "e" || ident(y) != "nil" || len(ifs.Body.List) != 1 || e.canon(ifs.Body.List[0], "") != "be.Add ( e )" ||
 		!isBlock || len(eb.List) != 1 || e.canon(eb.List[0], "") != "val += v" {
 		return "", false
 	}
